@@ -36,7 +36,9 @@ def cases(tier, seed):
                     fns = ["affine", "sphere"] if n == 1 else ["bilinear", "affine"]
                     rowsets = (tuple((fns[i], k) for i, k in enumerate(ks))
                                for ks in itertools.product(S.ROW_KINDS, repeat=m))
-                for rows in rowsets:
+                for ri_, rows in enumerate(rowsets):
+                    if tier == "thorough" and n == 2 and m == 2 and (ri_ + S.VAR_KINDS.index(vk[0])) % 2 == 1:
+                        continue  # two rows on two variables: half of the (variable kinds x row sets) table (bounds the tier to ~15 minutes)
                     for oi, obj in enumerate(objs):
                         if tier == "thorough" and n == 2 and m == 2 and oi == 2:
                             continue  # the third objective with one row at most (bounds the thorough tier to about 20 minutes)
